@@ -18,6 +18,8 @@ class FakeOSPath:
 
     def lexists(self, p):
         self._events.append(('lexists', p))
+        if getattr(self, '_real', None) is not None and p != self._real:
+            return False          # path-aware mode: only the path `_real` exists
         return self._exists
 
     def getsize(self, p):
@@ -28,6 +30,8 @@ class FakeOSPath:
 
     def exists(self, p):
         self._events.append(('exists', p))
+        if getattr(self, '_real', None) is not None and p != self._real:
+            return False
         return self._exists & ~self._dangling if isinstance(self._exists, symx.SymBool) or isinstance(self._dangling, symx.SymBool) \
             else (self._exists and not self._dangling)
 
@@ -121,6 +125,73 @@ class FakeHDU:
         ex = self._exists
         if bool(ex) and not overwrite:
             raise OSError(f'File {filename!r} already exists.')
+
+
+def h_write_tilde(fmt, api, m):
+    """a destination written with a leading '~': whatever the writer decides '~' means, the path it tests for existence and
+    the path it opens must be the same file - an existing file at the expanded path is never rewritten without overwrite=True.
+    (symbolic mode: path-aware event-recording filesystem in which only the expanded path exists; replay: a real temporary
+    HOME).  Nothing is required about whether a write to a '~' path succeeds."""
+    import importlib
+    import os
+    import shutil
+    import tempfile
+    overwrite = m.boolean('overwrite')
+    regs = _pool(None, 1, 0)
+    kw = {'crtf': {'coordsys': 'image', 'radunit': 'pix'}}.get(fmt, {})
+    ow = bool(overwrite)
+    ext = {'ds9': 'reg', 'crtf': 'crtf', 'fits': 'fits'}[fmt]
+    target = '~/dest.' + ext
+
+    def call():
+        with warnings.catch_warnings():
+            warnings.simplefilter('ignore')
+            try:
+                if api == 'Regions':
+                    _R(regs).write(target, format=fmt, overwrite=ow, **kw)
+                else:
+                    regs[0].write(target, format=fmt, overwrite=ow, **kw)
+                return None
+            except Exception as ex:  # noqa
+                return ex
+
+    if not m.sym or fmt == 'fits':
+        # FITS delegates the existence test and the expansion to astropy.io.fits: executed against a real directory
+        d = tempfile.mkdtemp(prefix='vf-c14t-')
+        home = os.environ.get('HOME')
+        cwd = os.getcwd()
+        try:
+            os.environ['HOME'] = d
+            os.chdir(d)
+            real = os.path.join(d, 'dest.' + ext)
+            sentinel = b'PRECIOUS USER DATA\n' * 300
+            with open(real, 'wb') as f:
+                f.write(sentinel)
+            raised = call()
+            now = open(real, 'rb').read() if os.path.lexists(real) else None
+            if not ow:
+                m.require("'~' destination: an existing file at the expanded path is left byte-identical without overwrite=True", now == sentinel)
+                m.require("'~' destination: a write that did not raise did not touch the existing expanded file either", raised is not None or now == sentinel)
+        finally:
+            os.chdir(cwd)
+            if home is None:
+                os.environ.pop('HOME', None)
+            else:
+                os.environ['HOME'] = home
+            shutil.rmtree(d, ignore_errors=True)
+        return
+    events = []
+    mod = importlib.import_module(f'regions.io.{fmt}.write')
+    fake = FakeOS(True, events)
+    expanded = os.path.expanduser(target)
+    fake.path._real = expanded
+    m.shim(mod, 'os', fake)
+    m.shim(mod, 'open', lambda name, mode='r', *a, **k: FakeFile(events, name, mode))
+    raised = call()
+    hits = [e for e in events if e[0] in ('open', 'remove', 'rename') and expanded in e[1:]]
+    if not ow:
+        m.require("'~' destination: the existing file at the expanded path is not opened for writing, removed or replaced "
+                  'without overwrite=True', not hits)
 
 
 def _pool(fail_kind, n, pos):
@@ -388,6 +459,8 @@ def harnesses(tier):
             for (n, pos) in ([(1, 0)] if fk is None else ([(1, 0), (3, 0), (3, 1), (3, 2)] if not q else [(3, 0), (3, 2), (1, 0)])):
                 for api in (('Regions', 'Region') if (fk is None or (pos == 0 and fk != 'not-a-region')) else ('Regions',)):
                     hs.append((f'write/{fmt}/fail={fk}/n={n}/pos={pos}/{api}', P(h_write, fmt, fk, n, pos, api, False)))
+        for api in ('Regions', 'Region'):
+            hs.append((f'write/{fmt}/tilde-destination/{api}', P(h_write_tilde, fmt, api)))
         hs.append((f'write/{fmt}/bad-option/Regions', P(h_write, fmt, None, 2, 0, 'Regions', True)))
         hs.append((f'write/{fmt}/bad-option/Region', P(h_write, fmt, None, 1, 0, 'Region', True)))
     hs.append(('identify/write', P(h_identify, 'write')))
@@ -405,7 +478,8 @@ META = {
                           'regions.io.{ds9,crtf,fits}.connect.is_ds9/is_crtf/is_fits'],
     'bounds': {'quick': {'fault schedule': 'destination-exists bit and overwrite flag symbolic (Booleans); failing member in {compound, non-region, '
                                           'unsupported frame} at the first / last position of a 3-list or alone; bad option per format',
-                         'path strings': 'symbolic, length <= 12, 8-bit characters, any case'}},
+                         'path strings': 'symbolic, length <= 12, 8-bit characters, any case',
+                         'tilde destinations': "'~/dest.<ext>' with an existing file at the expanded path, symbolic overwrite flag, path-aware model filesystem (DS9, CRTF) / real temporary HOME (FITS, replays); only the no-clobber obligation, nothing about success"}},
     'outside_claim': ['real filesystem semantics beyond the occupied/dangling bits (partial writes, astropy BinTableHDU.writeto internals): in the '
                       'solver-decided cases the filesystem is an event-recording stub and content-signature identification is stubbed as "no such file"; '
                       'reading back through the content signature of renamed / gzip-compressed copies is covered only by ONE EXECUTED history on a real '
